@@ -6,13 +6,18 @@ open Lean
 namespace Gnpy.Drv.C08
 open Gnpy.Chain
 
+def getLump (j : Json) : R (Float × Float) := do
+  match ← getArr j with
+  | [a, b] => return (← getF a, ← getF b)
+  | _ => throw "lumped loss pair expected"
+
 def getElem (j : Json) : R (Elem Float) := do
   let kind ← fStr j "kind"
   let uid ← fStr j "uid"
   match kind with
   | "fiber" =>
     return .fiber uid { length := ← fF j "length", lossCoef := ← fF j "loss_coef", conIn := ← fOpt getF j "con_in",
-                        conOut := ← fOpt getF j "con_out", attIn := ← fF j "att_in", lumped := ← fF j "lumped",
+                        conOut := ← fOpt getF j "con_out", attIn := ← fF j "att_in", lumps := ← fList getLump j "lumps",
                         raman := ← fBool j "raman", ramanGain := ← fOpt getF j "raman_gain", dsl := ← fOpt getF j "dsl" }
   | "fused" => return .fused uid (← fF j "loss")
   | "edfa" =>
@@ -23,7 +28,7 @@ def getElem (j : Json) : R (Elem Float) := do
 def jElem : Elem Float → Json
   | .fiber u p => jObj [("kind", jStr "fiber"), ("uid", jStr u), ("length", jF p.length), ("loss_coef", jF p.lossCoef),
                         ("con_in", jOpt jF p.conIn), ("con_out", jOpt jF p.conOut), ("att_in", jF p.attIn),
-                        ("lumped", jF p.lumped), ("raman", jBool p.raman), ("raman_gain", jOpt jF p.ramanGain),
+                        ("lumps", jList (fun l => Json.arr #[jF l.1, jF l.2]) p.lumps), ("lumped", jF p.lumped), ("raman", jBool p.raman), ("raman_gain", jOpt jF p.ramanGain),
                         ("dsl", jOpt jF p.dsl), ("loss", jF p.loss)]
   | .fused u l => jObj [("kind", jStr "fused"), ("uid", jStr u), ("loss", jF l)]
   | .edfa u p => jObj [("kind", jStr "edfa"), ("uid", jStr u), ("variety", jStr p.variety), ("gain", jOpt jF p.gain),
@@ -63,6 +68,10 @@ def design (j : Json) : R Json := do
     | .fiber _ p => calcRaises c.fuel p.length c.hi c.target
     | _ => false)
   if raisesSplit then return jObj [("error", jStr "ZeroDivisionError")]
+  let raisesLump := ch.line.any (fun e => match e with
+    | .fiber _ p => splitRaises c p
+    | _ => false)
+  if raisesLump then return jObj [("error", jStr "NetworkTopologyError")]
   let missing := addMissingLine c ch
   let withConn := addConn (← fF j "con_in") (← fF j "con_out") (← fF j "eol") missing
   let rs := runs withConn
